@@ -6,6 +6,7 @@ package jsonrpc2
 
 import (
 	"context"
+	stdjson "encoding/json"
 	"errors"
 	"fmt"
 	"io"
@@ -741,6 +742,15 @@ func (c *Connection) processResult(from any, req *incomingRequest, result any, e
 	if req.IsCall() {
 		if result == nil && err == nil {
 			err = c.internalErrorf("%#v returned a nil result and nil error for a %q Request that requires a Response", from, req.Method)
+		}
+
+		// An error whose data is not JSON could not be put on the wire: the
+		// failed write would take the whole connection down and the request
+		// would go unanswered. Answer with the error's code and message.
+		var wireErr *WireError
+		if errors.As(err, &wireErr) && len(wireErr.Data) > 0 && !stdjson.Valid(wireErr.Data) {
+			c.internalErrorf("%#v returned an error for %q whose data is not JSON", from, req.Method)
+			err = &WireError{Code: wireErr.Code, Message: err.Error()}
 		}
 
 		response, respErr := NewResponse(req.ID, result, err)
